@@ -180,3 +180,22 @@ Print Assumptions C11_gas_divisible_keeps_vertices.
 Example C11_gas_ex : vertex_slice 7 [3; 9; 5]%Z = mk_slice 3 10
   /\ gen_make_slice_divisible (vertex_slice 7 [3; 9; 5]%Z) 12 4 = mk_slice 3 11.
 Proof. exact vertex_slice_ex. Qed.
+
+(* ---- round 2 ---- *)
+(* the two axes of the different-CRS branch with shape_divisible_by: x is adjusted within the source WIDTH, y within its
+   HEIGHT; both results are proper slices of their own axis and keep every intersection-vertex index whenever the length
+   rounded up to a multiple of the factor fits on that axis (tied to get_area_slices(..., shape_divisible_by=N) by the
+   gas_divisible correspondence: exact integers per axis against the call without the factor) *)
+Theorem C11_gas_diff_slices_keep_vertices : forall x0 xs y0 ys width height factor,
+  (forall i, In i (x0 :: xs) -> (0 <= i < width)%Z) -> (forall j, In j (y0 :: ys) -> (0 <= j < height)%Z) ->
+  match factor with Some f => (0 < f)%Z | None => True end ->
+  let '(sx, sy) := gas_diff_slices x0 xs y0 ys width height factor in
+  let fits (s : pslice) (size : Z) := match factor with
+                                      | Some f => (cdiv (sstop s - sstart s) f * f <= size)%Z | None => True end in
+  (0 <= sstart sx < sstop sx)%Z /\ (sstop sx <= width)%Z /\ (0 <= sstart sy < sstop sy)%Z /\ (sstop sy <= height)%Z /\
+  (fits (vertex_slice x0 xs) width -> forall i, In i (x0 :: xs) -> (sstart sx <= i < sstop sx)%Z) /\
+  (fits (vertex_slice y0 ys) height -> forall j, In j (y0 :: ys) -> (sstart sy <= j < sstop sy)%Z).
+Proof. exact gas_diff_slices_keep. Qed.
+Print Assumptions C11_gas_diff_slices_keep_vertices.
+Example C11_gas_diff_ex : gas_diff_slices 0 [252]%Z 3 [40]%Z 400 100 (Some 2%Z) = (mk_slice 0 254, mk_slice 3 41).
+Proof. exact gas_diff_ex. Qed.
